@@ -38,21 +38,25 @@ type ModelRun struct {
 
 // Plan is what a property check does at one tier.
 type Plan struct {
-	Property    string
-	Tier        string
-	Seed        int64
-	Level       string // evidence level
-	Models      []ModelRun
-	EvalMod     string // TLA+ module evaluating the records (record mode)
-	EvalEnv     map[string]string
-	Cases       func(emit func(Case)) // case generator (deterministic given Seed)
-	Isolated    bool                  // run cases in worker processes (fatal crashes possible)
-	ReproTries  int                   // how often a mismatching case is re-executed to reproduce it (schedule-dependent events)
-	Parallel    int                   // non-isolated cases: this many at a time (executors that spawn their own processes)
-	CaseTimeout time.Duration
-	Rule        string // evidence: how cases are generated and what non-trivial means
-	NonTrivial  func(r Rec) bool
-	Assumptions []string
+	Property string
+	Tier     string
+	Seed     int64
+	Level    string // evidence level
+	Models   []ModelRun
+	EvalMod  string // TLA+ module evaluating the records (record mode)
+	EvalEnv  map[string]string
+	Cases    func(emit func(Case)) // case generator (deterministic given Seed)
+	Isolated bool                  // run cases in worker processes (fatal crashes possible)
+	// ObservationIsEvidence: the record itself documents the real code's behaviour beyond doubt (a race
+	// detector report with both stacks); a mismatch that does not occur again when its case is
+	// re-executed (scheduling) is still reported
+	ObservationIsEvidence bool
+	ReproTries            int // how often a mismatching case is re-executed to reproduce it (schedule-dependent events)
+	Parallel              int // non-isolated cases: this many at a time (executors that spawn their own processes)
+	CaseTimeout           time.Duration
+	Rule                  string // evidence: how cases are generated and what non-trivial means
+	NonTrivial            func(r Rec) bool
+	Assumptions           []string
 	// Behaviour-mode trace validation (optional): called after record mode with
 	// the records; returns additional mismatches.
 	Behaviour     func(p *Plan, recs []Rec) ([]Mismatch, *TLCResult, error)
@@ -541,11 +545,14 @@ func Run(p *Plan) int {
 		for _, m := range unknown {
 			c, _ := m.Rec["case"].(Case)
 			if c == nil || !repro[caseKey(c)+"|"+m.Class] {
-				logf("INCONCLUSIVE: mismatch %s could not be reproduced from its case: %s", m.Class, brief(m.Rec))
-				if exit == 0 {
-					exit = 2
+				if c == nil || !p.ObservationIsEvidence {
+					logf("INCONCLUSIVE: mismatch %s could not be reproduced from its case: %s", m.Class, brief(m.Rec))
+					if exit == 0 {
+						exit = 2
+					}
+					continue
 				}
-				continue
+				logf("note: mismatch %s did not occur again in %d re-executions of its case; the recorded observation stands", m.Class, tries)
 			}
 			violations++
 			exit = 1
